@@ -2,3 +2,4 @@
 helpers translated from the source (Properties/FnSockCb), equal to the model's. -/
 import PahoProofs.Properties.C10
 import PahoProofs.Properties.FnSockCb
+import PahoProofs.Properties.FnLoopRc
